@@ -216,6 +216,8 @@ impl InputState {
             } else {
                 0
             };
+            // The cursor is a character index, the completer expects a byte position
+            let pos = s.char_indices().nth(pos).map_or(s.len(), |(idx, _)| idx);
             let comps = file_comp.complete_path(s, pos);
             match comps {
                 Ok((_, comps)) => {
